@@ -310,6 +310,8 @@ class Effects:
                 return FRESH        # verified to return dict(vars(self)) by C04/C05
             if name in ('apply',):
                 return FRESH
+            if name in ('trace', 'graph_copy') and (self._is_tracer(recv) or name == 'graph_copy'):
+                return FRESH        # Tracer.trace builds a new fx.Graph
             if self._method_returns_fresh(name):
                 return FRESH
             out = set(r)
@@ -789,6 +791,21 @@ class Effects:
         mc = method_call(t)
         c = callee(t)
         if c in PURE_BUILTINS:
+            return
+        if c == 'torch.fx.GraphModule' or (c and c.endswith('.GraphModule')):
+            # GraphModule(root, graph) adopts `graph` (its setter stores the object and rewrites
+            # graph.owning_module): the new module's graph IS the argument, so every later
+            # edit through the new module edits the graph's previous owner as well
+            gt = t[2][1] if len(t[2]) > 1 else arg(t, 1, 'graph')
+            if gt is not None:
+                gr = self.root(gt, p, fn)
+                gr = frozenset(a for a in gr if a != 'fresh')
+                if gr:
+                    add(Effect('struct', frozenset(a if a.startswith('g:') or a in
+                                                   ('unknown', 'global') else 'g:' + owner(a)
+                                                   for a in gr),
+                               'GraphModule', 'adopts the graph ' + show(gt)[:60] +
+                               ' without copying it', fn, ln))
             return
         # ShapeProp(mod).propagate(x) / mod(x) / x.forward(...): a forward pass over the graph
         if mc is not None:
